@@ -408,6 +408,86 @@ fn arb_upd() -> impl Strategy<Value = Upd> {
     ]
 }
 
+/// many increments / samples racing with a reader that reads out in a tight loop
+#[derive(Clone, Debug, Serialize, Deserialize)]
+pub struct StressCase {
+    pub threads: u8,
+    pub per_thread: u32,
+    pub keys: u8,
+    pub step: u8,
+}
+
+pub fn check_stress(case: &StressCase) -> CaseResult {
+    let rec: Rec24 = MetricRecorder::new();
+    let nt = (case.threads % 6 + 2) as usize;
+    let nk = (case.keys % 2 + 1) as usize;
+    let step = (case.step % 3 + 1) as u64;
+    let done = std::sync::atomic::AtomicBool::new(false);
+    let mut reported: BTreeMap<String, u64> = BTreeMap::new();
+    let mut hist_reported: u64 = 0;
+    let kinds: BTreeMap<String, u8> = [(NAMES[0].to_string(), 0u8), (NAMES[1].to_string(), 1), (NAMES[2].to_string(), 2)]
+        .into_iter()
+        .collect();
+    let mut readouts = 0u64;
+    let logs: Vec<RecLog> = std::thread::scope(|s| {
+        let hs: Vec<_> = (0..nt)
+            .map(|t| {
+                let rec = &rec;
+                s.spawn(move || {
+                    let k = K { name: 0, labels: (t % nk) as u8 };
+                    let c = rec.register_counter(&k.key(), &meta());
+                    let h = rec.register_histogram(&K { name: 1, labels: 0 }.key(), &meta());
+                    for i in 0..case.per_thread {
+                        c.increment(step);
+                        if i % 8 == 0 {
+                            h.record((i % 1000) as f64);
+                        }
+                    }
+                })
+            })
+            .collect();
+        let mut logs = vec![];
+        while hs.iter().any(|h| !h.is_finished()) {
+            logs.push(record(&rec.readout()));
+        }
+        for h in hs {
+            let _ = h.join();
+        }
+        done.store(true, std::sync::atomic::Ordering::SeqCst);
+        logs.push(record(&rec.readout()));
+        logs
+    });
+    for log in &logs {
+        let r = decode(log, &kinds)?;
+        readouts += 1;
+        for ((name, dims), v) in r.counters {
+            *reported.entry(format!("{name}{dims:?}")).or_insert(0) += v;
+        }
+        for (_, v) in r.histograms {
+            hist_reported += v.iter().map(|x| x.1).sum::<u64>();
+        }
+    }
+    let total: u64 = reported.values().sum();
+    let expect = nt as u64 * case.per_thread as u64 * step;
+    vensure!(
+        total == expect,
+        if total < expect { "bridge:counter-increments-lost" } else { "bridge:counter-increments-double-counted" },
+        "{nt} threads x {} increments of {step} racing with {readouts} readouts: the readout deltas sum to {total}, the increments to {expect}",
+        case.per_thread
+    );
+    let hexp = nt as u64 * case.per_thread.div_ceil(8) as u64;
+    vensure!(
+        hist_reported == hexp,
+        if hist_reported < hexp { "bridge:histogram-samples-lost" } else { "bridge:histogram-samples-double-counted" },
+        "histogram: {hexp} samples recorded while {readouts} readouts ran, {hist_reported} reported"
+    );
+    let mut classes: Classes = vec![];
+    if readouts >= 3 {
+        classes.push("nt");
+    }
+    Ok(classes)
+}
+
 pub fn run(ctx: &mut Ctx) {
     ctx.assume("histogram samples are in [0, +inf) (negative / NaN samples are outside the bridge's documented u32 domain); the recorded integer is the sample truncated and clamped to u32::MAX");
     ctx.assume("one writer thread per gauge key so that 'last value set' is defined; units are asserted on readouts taken at quiescent points (describe races with a concurrent readout by nature)");
@@ -447,5 +527,22 @@ pub fn run(ctx: &mut Ctx) {
                 .prop_map(|(phases, emit_zero)| Case { phases, emit_zero })
         },
         check,
+    );
+    ctx.explore(
+        SubCfg::new(
+            "c20-stress",
+            "2-7 threads each performing 20 000-200 000 counter increments (step 1-3, one or two keys) and a histogram sample every 8th iteration while the main thread calls readout() in a tight loop until they finish (hundreds to thousands of readouts race with the updates). Oracle: the counter deltas over all readouts sum exactly to the increments, the histogram counts to the samples. Non-trivial = >= 3 readouts overlapped the updates",
+            if q { 24 } else { 600 },
+        )
+        .shrink_iters(6),
+        || {
+            (any::<u8>(), prop_oneof![20_000u32..60_000, 60_000u32..200_000], any::<u8>(), any::<u8>()).prop_map(|(threads, per_thread, keys, step)| StressCase {
+                threads,
+                per_thread,
+                keys,
+                step,
+            })
+        },
+        check_stress,
     );
 }
